@@ -27,7 +27,7 @@ class LogScheduler(ActionScheduler):
     calls = None
 
     def default_action(self, obj, time, new_state):
-        self.calls.append(('default', self, obj, time, new_state))
+        self.calls.append(('default', self, obj, time, new_state, self.current_state))
 
 
 STATES = {1: ['A'], 2: ['A', 'B'], 3: ['A', 'B', 'A']}
@@ -108,7 +108,7 @@ def run(shape, args, ctx):
     objs = {'o1': object(), 'o2': object(), 'o3': object()}
 
     def override(s, obj, time, new_state):
-        calls.append(('override', s, obj, time, new_state))
+        calls.append(('override', s, obj, time, new_state, s.current_state))
     registered = []      # reference: (name, uses_override) in registration order
     ctx.require(sched.register_object(objs['o1']) is True, 'first registration refused')
     registered.append(('o1', False))
@@ -165,6 +165,7 @@ def run(shape, args, ctx):
                             f'change {k}: wanted {[w[0] for w in want]} got {[g[0] for g in got]}')
                 for c in new_calls:
                     ctx.require(c[1] is sched and c[4] == states[k % L], 'action arguments wrong (scheduler / new state)')
+                    ctx.require(c[5] == c[4], 'current_state seen from inside the action is not the new state')
                     ctx.require(z(c[3]) == now, 'action argument time != current time')
                 if k >= L:
                     ctx.goal('wrapped_around')
